@@ -182,6 +182,11 @@ def gen_C20(rng, tier):
         yp = p.tensor([3], [0.2, 0.5, 0.9]); yt = p.tensor([3], [0.0, 1.0, 1.0])
         shared = dict(W=W, B=B, X=X, U=U, f=f, a=a, j=j, shape=shape, yp=yp, yt=yt)
         nthreads = rng.choice([2, 3, 4, 8, 16])
+        if i % 3 == 1:
+            # calls the library rejects, before the goroutines start: an error path must leave nothing behind that the
+            # concurrent calls could trip over
+            error_prelude(p, rng)
+            p.tag('after-rejected-calls')
         p.add('par')
         for tid in range(nthreads):
             p.add('thread')
